@@ -578,6 +578,20 @@ def check_text(text, acc, case, geometry=True):
   if any(not c.lines for c in cues):
     return "grammatical-with-empty-cue", False
   out = compare(cues, res, acc, case, geometry=geometry)
+  if "\r" in text:
+    # the same characters handed over as a text stream that does not translate line ends (io.StringIO keeps CR LF): the
+    # reader has to cope with CR LF itself and must build the same document
+    import io
+    from mc.spec import fp_doc
+    try:
+      with LogTap():
+        doc2 = vtt_reader.to_model(io.StringIO(text), None, lambda _: None)
+      same = doc2 is not None and fp_doc(doc2) == fp_doc(res)
+    except Exception as e:  # pylint: disable=broad-except
+      same, doc2 = False, repr(e)[:200]
+    if not same:
+      acc.violation(f"{ID}.eol", "in-memory-stream-keeps-CR", case, observed=str(doc2)[:200] if not hasattr(doc2, "get_body") else "document differs",
+                    expected="the document read from the same file opened in text mode", note="CR LF line ends in a stream without newline translation")
   blocks = ("+blocks" if (vf.styles or vf.notes or vf.regions) else "")
   return (f"{len(cues)}cue:" if len(cues) < 3 else "3+cue:") + out + blocks, bool(cues)
 
@@ -800,7 +814,20 @@ def fam_crefs():
 
 ANNOTATIONS = ["<v Fred>hi</v> there", "<v Fred Smith>hi</v>", "<v.loud Fred>hi</v>", "<v Tom &amp; Jerry>hi</v> there", "<v Fred>hi\nthere</v>",
                "<lang en-US>hi</lang>", "<lang en>hi <lang fr>salut</lang></lang> x", "<c.red.bg_blue.other>hi</c>",
+               "<c.loud.yellow.bg_blue>hi</c> there", "<c.red.speaker1.bg_blue>hi</c>", "<c.loud>a<c.lime>b</c></c>",      # a class that is no colour, before colour classes
                "<v  Fred >hi</v>", "<v\tFred>hi</v>"]
+
+
+IDENTIFIERS = ["1", "cue one", "STYLE2", "STYLES", "NOTES", "NOTE1", "REGION1", "style", "note", "X STYLE", "a NOTE b", "0", "-"]
+
+
+def fam_identifiers():
+  """cue identifiers that begin like the keyword of a block: they are identifiers all the same"""
+  def make(i):
+    ident = IDENTIFIERS[i % len(IDENTIFIERS)]
+    second = IDENTIFIERS[(i // len(IDENTIFIERS)) % len(IDENTIFIERS)]
+    return f"WEBVTT\n\n{ident}\n00:00:01.000 --> 00:00:02.000\nhello\n\n{second}\n00:00:03.000 --> 00:00:04.000\nworld\n"
+  return _file_family("F-identifiers", len(IDENTIFIERS) ** 2, make, "two cues with identifiers, some of which begin like STYLE / NOTE / REGION", geometry=False)
 
 
 def fam_annotations():
@@ -1117,7 +1144,7 @@ def plan(tier, seed):
                 note="all line-token sequences from the empty file and after 'WEBVTT, blank'; invariant: no internal exception, cue list of the strict parser when grammatical",
                 shrink=shrink_history, check=check_machine_case),
     fam_times(),
-    fam_tags(1), fam_tags(2), fam_tags(3), fam_ruby(), fam_crefs(), fam_annotations(), fam_timestamps(),
+    fam_tags(1), fam_tags(2), fam_tags(3), fam_ruby(), fam_crefs(), fam_annotations(), fam_identifiers(), fam_timestamps(),
     fam_tagtokens(4 if tier == "quick" else 5),
     fam_settings(),
     fam_layout(),
